@@ -124,7 +124,14 @@ func evalExecBlock(vm *r.VM, execBlock *syntax.ExecBlock, params []r.Element) (r
 	rtnValue, stmtBlockErr := evalStmtBlock(vm, execBlock.StmtBlock)
 
 	if stmtBlockErr != nil {
-		return handleExceptionSignal(vm, blockModule, entryDepth, execBlock.CatchBlock, stmtBlockErr)
+		rtnValue, stmtBlockErr = handleExceptionSignal(vm, blockModule, entryDepth, execBlock.CatchBlock, stmtBlockErr)
+	}
+	// 结束循环 / 继续循环 act on a loop of this body only: outside of one they are an error
+	// here instead of reaching a loop of the caller
+	if s, ok := stmtBlockErr.(*zerr.Signal); ok {
+		if s.SigType == zerr.SigTypeBreak || s.SigType == zerr.SigTypeContinue {
+			return nil, zerr.UnexpectedCase("中断信号", s.Error())
+		}
 	}
 
 	return rtnValue, stmtBlockErr
